@@ -67,12 +67,20 @@ structure SSpec where
 outer list = per edge (or one element for all edges), inner list = the callbacks of that edge -/
 abbrev OArg := Option (List (List Nat))
 
+/-- one element of the `source` / `dest` selector of `remove_transition`: the state it names and
+whether it is given as a string.  The comprehension compares `t.source` / `t.dest` (strings) with the
+element itself, so an Enum member or a `State` object equals no transition (`str = false`). -/
+structure Sel where
+  name : Nat
+  str : Bool := true
+  deriving DecidableEq, Repr, Inhabited
+
 inductive Op
   | addStates (l : List SSpec) (callIgn : Option Bool)
   | addTransition (ev : Nat) (src : Src) (dst : Dst) (cb : CbSpec)
   | addOrdered (ev : Nat) (states : Option (List Nat)) (loop inclInit : Bool)
       (conditions unlss before after prepare : OArg)
-  | remove (ev : Nat) (src dst : Option (List Nat))     -- `none` = `'*'`
+  | remove (ev : Nat) (src dst : Option (List Sel))     -- `none` = `'*'`
   | setInitial (s : Nat)
   deriving Repr, Inhabited
 
@@ -144,10 +152,12 @@ def mkState (callIgn mign : Option Bool) (s : SSpec) : StateDef :=
   { name := s.name, onEnter := s.onEnter, onExit := s.onExit, ignore := fillIgnore callIgn mign s,
     final := s.final }
 
+def B.putState (b : B) (st : StateDef) : B := { b with cfg := { b.cfg with states := upsert st b.cfg.states } }
+
 /-- one iteration of the loop of `Machine.add_states` -/
 def B.addState (F : Filter) (b : B) (callIgn : Option Bool) (s : SSpec) : B :=
-  let b1 : B := { b with cfg := { b.cfg with states := upsert (mkState callIgn b.mign s) b.cfg.states } }
-  if b.auto then b1.autoTransitions F s.name else b1
+  if b.auto then (b.putState (mkState callIgn b.mign s)).autoTransitions F s.name
+  else b.putState (mkState callIgn b.mign s)
 
 def B.addStates (F : Filter) (b : B) (l : List SSpec) (callIgn : Option Bool) : B :=
   l.foldl (fun acc s => acc.addState F callIgn s) b
@@ -205,26 +215,28 @@ def B.addOrdered (F : Filter) (b : B) (ev : Nat) (states : Option (List Nat)) (l
   | some cbs => some (b.addEdges F ev ((orderedEdges b.init sts loop inclInit).zip cbs))
 
 /-- the keep-predicate of the comprehension in `remove_transition` -/
-def keepT (src dst : Option (List Nat)) (t : Trans) : Bool :=
+def selHas (l : List Sel) (n : Nat) : Bool := l.any fun x => x.str && x.name == n
+
+def keepT (src dst : Option (List Sel)) (t : Trans) : Bool :=
   (match src with
-    | some l => !l.contains t.source
+    | some l => !selHas l t.source
     | none => false) ||
   (match dst with
     | some l => (match t.dest with
-      | some d => !l.contains d
+      | some d => !selHas l d
       | none => true)
     | none => false)
 
-def setKey (ev : Nat) (l : List Trans) : List (Nat × List Trans) → List (Nat × List Trans)
-  | [] => []
-  | (k, x) :: r => if k = ev then (k, l) :: r else (k, x) :: setKey ev l r
+/-- `events[trigger].transitions = …` (a dict: every entry with that key, there is at most one) -/
+def setKey (ev : Nat) (l : List Trans) (evs : List (Nat × List Trans)) : List (Nat × List Trans) :=
+  evs.map fun e => if e.1 = ev then (e.1, l) else e
 
-def delKey (ev : Nat) : List (Nat × List Trans) → List (Nat × List Trans)
-  | [] => []
-  | (k, x) :: r => if k = ev then r else (k, x) :: delKey ev r
+/-- `del self.events[trigger]` -/
+def delKey (ev : Nat) (evs : List (Nat × List Trans)) : List (Nat × List Trans) :=
+  evs.filter fun e => e.1 != ev
 
 /-- `Machine.remove_transition`; `none` = KeyError (unknown trigger) -/
-def B.remove (b : B) (ev : Nat) (src dst : Option (List Nat)) : Option B :=
+def B.remove (b : B) (ev : Nat) (src dst : Option (List Sel)) : Option B :=
   match alookup ev b.cfg.events with
   | none => none
   | some l =>
